@@ -427,6 +427,108 @@ def gen_file(rng, nlines=None):
     return lines
 
 
+
+# --------------------------------------------------------------------------- spec stream
+# Lines with an *explicit* layout in the vocabulary of lean/OsacaVerif/Spec/X86Render.lean
+# (`Line`, `OpLayout`, `NumFmt`, `CommentLayout`).  Rendered three times: by `render_spec` below,
+# by the Lean specification (driver op `x86spec`) and -- after parsing -- compared with the AST.
+
+
+def blanks(rng, allow_empty=True):
+    return ws(rng, allow_empty)
+
+
+def gen_spec_line(rng):
+    while True:
+        ast = gen_ast(rng)
+        if renderable(ast):
+            break
+    ops = []
+    for i, o in enumerate(ast["ops"]):
+        L = {"pre": blanks(rng, allow_empty=(i != 0)), "post": blanks(rng),
+             "hex": rng.random() < 0.5, "upper": rng.random() < 0.4, "zeros": rng.choice([0, 0, 0, 1, 2, 5]),
+             "bare": bool(o[0] == "ident" and i == 0 and rng.random() < 0.6),
+             "showScale": rng.random() < 0.5}
+        for k in range(1, 8):
+            L["w%d" % k] = blanks(rng)
+        ops.append((L, o))
+    comment = None
+    if ast.get("comment") is not None:
+        words = [(blanks(rng, allow_empty=(j == 0)), w) for j, w in enumerate(ast["comment"])]
+        comment = {"slashes": rng.random() < 0.4, "words": words, "last": blanks(rng)}
+    return {"indent": blanks(rng), "mn": ast["mn"], "trail": blanks(rng), "ops": ops, "comment": comment, "ast": ast}
+
+
+def _spec_int(L, v):
+    a = abs(v)
+    if L["hex"]:
+        h = "%x" % a
+        s = "0x" + "0" * L["zeros"] + (h.upper() if L["upper"] else h)
+    else:
+        s = "%d" % a
+    return ("-" if v < 0 else "") + s
+
+
+def render_spec(line):
+    s = line["indent"] + line["mn"]
+    parts = []
+    for L, o in line["ops"]:
+        k = o[0]
+        if k == "reg":
+            t = "%" + o[1]
+        elif k == "imm":
+            t = "$" + _spec_int(L, o[1])
+        elif k == "ident":
+            t = o[1] if L["bare"] else "$" + o[1]
+        else:
+            _, off, base, index, scale = o
+            d = "" if off is None else (_spec_int(L, off[1]) if off[0] == "imm" else off[1])
+            if base is None and index is None:
+                t = d
+            else:
+                t = d + L["w1"] + "(" + L["w2"]
+                if base is not None:
+                    t += "%" + base + L["w3"]
+                if index is not None:
+                    t += "," + L["w4"] + "%" + index + L["w5"]
+                    if scale != 1 or L["showScale"]:
+                        t += "," + L["w6"] + str(scale) + L["w7"]
+                t += ")"
+        parts.append(L["pre"] + t + L["post"])
+    s += ",".join(parts) + line["trail"]
+    c = line["comment"]
+    if c is not None:
+        s += ("//" if c["slashes"] else "#") + "".join(g + w for g, w in c["words"]) + c["last"]
+    return s
+
+
+def encode_spec(line):
+    """protocol fields of `x86spec` (order: lean/OsacaVerif/Driver/C09.lean `decodeLine`)"""
+    c = line["comment"]
+    f = [line["indent"], line["mn"], line["trail"], "0" if c is None else ("2" if c["slashes"] else "1")]
+    words = [] if c is None else c["words"]
+    f.append(str(len(words)))
+    for g, w in words:
+        f += [g, w]
+    f.append("" if c is None else c["last"])
+    f.append(str(len(line["ops"])))
+    b = lambda x: "1" if x else "0"
+    for L, o in line["ops"]:
+        f += [L["pre"], L["post"], b(L["hex"]), b(L["upper"]), str(L["zeros"]), b(L["bare"]), b(L["showScale"])]
+        f += [L["w%d" % k] for k in range(1, 8)]
+        if o[0] == "reg":
+            f += ["R", o[1]]
+        elif o[0] == "imm":
+            f += ["I", str(o[1])]
+        elif o[0] == "ident":
+            f += ["L", o[1]]
+        else:
+            _, off, base, index, scale = o
+            f += ["M", "0" if off is None else ("1" if off[0] == "imm" else "2"),
+                  "" if off is None else str(off[1]), b(base is not None), base or "", b(index is not None), index or "",
+                  str(scale)]
+    return " ".join(esc(x) for x in f)
+
 # --------------------------------------------------------------------------- extended stream
 # well-formed for the grammar but outside the property's AST domain: compared model vs
 # implementation only (no expected value).
